@@ -344,8 +344,13 @@ class Ctx:
             self.taken.append(d)
             self.assume(e if d else z3.Not(e))
             return d
-        if isinstance(cond, (SV, OptVal, SymRef)):
-            raise Unsupported(f'truthiness of symbolic value {cond!r} at line {lineno}')
+        if isinstance(cond, OptVal):
+            # truthiness of Optional[number]: not None and != 0
+            return self.branch(SB(z3.And(z3.Not(cond.isnone), to_z3(cond.val) != 0)), lineno)
+        if isinstance(cond, SymRef):
+            return self.branch(SB(cond.e != 0), lineno)
+        if isinstance(cond, SV):
+            return self.branch(SB(cond.e != 0), lineno)
         return self.engine.truthy(cond)
 
     def choice(self, n, label=''):
@@ -361,17 +366,78 @@ class Ctx:
         return d
 
     # ---- obligations
-    def oblige(self, name, goal, kind='post', lineno=None, assume_after=True):
+    def oblige(self, name, goal, kind='post', lineno=None, assume_after=True, pivots=None, ground_only=False):
         goal = b2z(goal)
-        ob = Obligation(name, kind, list(self.pc), goal, lineno, tuple(self.taken))
-        self.engine.discharge(ob)
+        plain_goal = goal
+        hook = self.state.get('oblige_hook')
+        if hook is not None and not ground_only:
+            r = hook(name, kind, lineno)
+            if r:
+                hints, ground_only = r
+                if hints:
+                    goal = z3.Implies(z3.And(*hints), goal)
+        hyps = list(self.pc)
+        if ground_only:
+            # hypothesis slicing: keep only quantifier-free hypotheses (dropping hypotheses is sound); the goal carries
+            # the explicit instances of the quantified ones that the proof needs
+            hyps = [h for h in hyps if not _has_quantifier(h)]
+        ob = Obligation(name, kind, hyps, goal, lineno, tuple(self.taken))
+        if pivots and z3.is_quantifier(goal) and goal.is_forall():
+            self._discharge_split(ob, goal, pivots)
+        else:
+            self.engine.discharge(ob)
         if ob.status == 'refuted' and self.state.get('weak_invariant'):
             ob.status = 'unknown'
             ob.note = 'undecided, not refuted: ' + self.state['weak_invariant']
         self.obligations.append(ob)
         if assume_after:
-            self.assume(goal)
+            self.assume(plain_goal)
         return ob
+
+
+def _has_quantifier(e):
+    stack = [e]
+    seen = set()
+    while stack:
+        x = stack.pop()
+        if x.get_id() in seen:
+            continue
+        seen.add(x.get_id())
+        if z3.is_quantifier(x):
+            return True
+        if z3.is_app(x):
+            stack.extend(x.children())
+    return False
+
+
+def _discharge_split(self, ob, goal, pivots):
+    """forall x. body: skolemise x and discharge once per case x == pivot_k plus the remaining case
+    (case split at structure boundaries; the conjunction of the cases is the original obligation)."""
+    nv = goal.num_vars()
+    sks = [z3.Const(f'sk!{next(self.counter)}', goal.var_sort(i)) for i in range(nv)]
+    body = z3.substitute_vars(goal.body(), *reversed(sks))
+    x = sks[0]
+    cases = [x == p for p in pivots] + [z3.And(*[x != p for p in pivots])]
+    t0 = time.time()
+    worst = 'discharged'
+    backends = set()
+    for c in cases:
+        sub = Obligation(ob.name, ob.kind, ob.hyps + [c], body, ob.lineno, ob.path)
+        self.engine.discharge(sub)
+        self.engine.all_obligations.pop()
+        backends.add(sub.backend)
+        if sub.status == 'refuted':
+            worst, ob.model = 'refuted', sub.model
+            break
+        if sub.status != 'discharged':
+            worst, ob.note = 'unknown', sub.note
+    ob.status = worst
+    ob.backend = '+'.join(sorted(b for b in backends if b)) + f' (case split x{len(cases)})'
+    ob.seconds = time.time() - t0
+    self.engine.all_obligations.append(ob)
+
+
+Ctx._discharge_split = _discharge_split
 
 
 # --------------------------------------------------------------------------
@@ -408,6 +474,7 @@ class Engine:
         self.algebraic = {}
         self.hooks = {}           # misc extension points: 'getattr', 'setattr', 'binop', 'call', 'truthy', 'pow'
         self.max_depth = 40
+        self.finite_scope = None   # dict(K=..., funs=[(f, body)...]) enables the exact finite-scope refuter for heap VCs
         self.verifying = None
         self.dropped = {'docstrings': 0, 'warnings.warn': 0, 'fstrings': 0}
         from . import builtins_model
@@ -416,14 +483,24 @@ class Engine:
     # ------------------------------------------------------------ discharge
     def discharge(self, ob):
         t0 = time.time()
-        s = z3.Solver()
-        s.set('timeout', self.timeout_ms)
-        for ax in self.global_axioms:
-            s.add(ax)
-        for h in ob.hyps:
-            s.add(h)
-        s.add(z3.Not(ob.goal))
-        r = s.check()
+        r = None
+        s = None
+        # slow quantified queries are the unstable ones: several short attempts with different seeds
+        # beat one long attempt; `unknown` after all of them goes to the second-opinion back ends
+        attempts = [(0, self.timeout_ms // 6), (7, self.timeout_ms // 3), (23, self.timeout_ms // 2)]
+        for seed, tmo in attempts:
+            s = z3.Solver()
+            s.set('timeout', max(int(tmo), 1000))
+            if seed:
+                s.set('random_seed', seed)
+            for ax in self.global_axioms:
+                s.add(ax)
+            for h in ob.hyps:
+                s.add(h)
+            s.add(z3.Not(ob.goal))
+            r = s.check()
+            if r != z3.unknown:
+                break
         ob.backend = 'z3-' + z3.get_version_string()
         if r == z3.unsat:
             ob.status = 'discharged'
@@ -435,6 +512,9 @@ class Engine:
             ob.status = 'unknown'
             ob.note = s.reason_unknown()
             self._second_opinion(ob, s)
+            if ob.status == 'unknown' and self.finite_scope:
+                from . import finite_scope
+                finite_scope.refute(self, ob)
         ob.seconds = time.time() - t0
         self.solver_seconds += ob.seconds
         self.all_obligations.append(ob)
@@ -1100,6 +1180,12 @@ class Engine:
         if isinstance(node.op, ast.Not):
             if isinstance(v, SB):
                 return SB(z3.Not(v.e))
+            if isinstance(v, OptVal):
+                return SB(z3.Or(v.isnone, to_z3(v.val) == 0))
+            if isinstance(v, SV):
+                return SB(v.e == 0)
+            if isinstance(v, SymRef):
+                return SB(v.e == 0)
             return not self.truthy(v)
         if isinstance(node.op, ast.USub):
             if isinstance(v, OptVal):
